@@ -80,6 +80,20 @@ theorem C20_verify_verdict (tb : Tables α) (threads : List (Thread κ α μ)) (
   obtain ⟨th, hth, alg, msg, sig, cert, sk, hop, hv⟩ := (inv_run tb threads sched).events t i _ h
   exact ⟨th, alg, msg, sig, cert, sk, hth, hop, hv⟩
 
+/-- Receiving path: a receiver that tries a produced signature against the certificates `published`
+    for the claimed issuer (in any order, any number, retired or foreign ones among them) accepts it iff
+    the caller's own certificate is among them — for every schedule. -/
+theorem C20_accepted_iff_published (tb : Tables α) (threads : List (Thread κ α μ)) (sched : List Nat)
+    (t i : Nat) (alg : α) (msg : μ) (s : Sig κ α μ) (published : List κ)
+    (h : (t, i, Event.signed alg msg s) ∈ (run tb threads sched).out) :
+    ∃ th : Thread κ α μ, threads[t]? = some th ∧
+      (published.any (fun k => verifies k alg msg s) = true ↔
+        keyAfter th.key (th.prog.take i) ∈ published) := by
+  obtain ⟨th, hth, _, hs⟩ := C20_signature_exact tb threads sched t i alg msg s h
+  refine ⟨th, hth, ?_⟩
+  subst hs
+  rw [any_verifies_exact, List.contains_iff_mem]
+
 /-- The repaired design never reaches the `crashed` outcome (a signer object always has a key). -/
 theorem C20_never_crashes (tb : Tables α) (threads : List (Thread κ α μ)) (sched : List Nat) (t i : Nat) :
     (t, i, Event.crashed) ∉ (run tb threads sched).out := by
@@ -91,20 +105,26 @@ theorem C20_never_crashes (tb : Tables α) (threads : List (Thread κ α μ)) (s
 
 /-- Reading of the checker for signatures: accepted only for a sign operation, with the caller's key
     among the verifiers and no other key. -/
-theorem C20_spec_signed (tb : Tables α) (own : κ) (op : Op κ α μ) (vs : List κ)
-    (h : specOp tb own op (.signed vs) = true) :
-    (∃ alg msg, op = .sign alg msg) ∧ own ∈ vs ∧ ∀ k ∈ vs, k = own := by
+theorem C20_spec_signed (tb : Tables α) (pub : Option (κ → List κ)) (own : κ) (op : Op κ α μ)
+    (vs : List κ) (acc : Option Bool) (h : specOp tb pub own op (.signed vs acc) = true) :
+    (∃ alg msg, op = .sign alg msg) ∧ own ∈ vs ∧ (∀ k ∈ vs, k = own) ∧
+      ∀ f a, pub = some f → acc = some a → (a = true ↔ own ∈ f own) := by
   cases op with
   | sign alg msg =>
     simp only [specOp, Bool.and_eq_true, List.contains_iff_mem, List.all_eq_true, decide_eq_true_eq] at h
-    exact ⟨⟨alg, msg, rfl⟩, h.1, h.2⟩
+    refine ⟨⟨alg, msg, rfl⟩, h.1.1, h.1.2, ?_⟩
+    intro f a hf ha
+    subst hf ha
+    have h2 := h.2
+    simp only [beq_iff_eq] at h2
+    rw [h2, List.contains_iff_mem]
   | verify alg msg sig cert sk => cases cert <;> simp [specOp] at h
   | setup p c => simp [specOp] at h
 
 /-- Reading of the checker for verdicts under a certificate. -/
-theorem C20_spec_verified (tb : Tables α) (own c : κ) (alg : α) (msg : μ) (sig : Sig κ α μ)
-    (sk : Option κ) (ok : Bool)
-    (h : specOp tb own (.verify alg msg sig (some c) sk) (.verified ok) = true) :
+theorem C20_spec_verified (tb : Tables α) (pub : Option (κ → List κ)) (own c : κ) (alg : α) (msg : μ)
+    (sig : Sig κ α μ) (sk : Option κ) (ok : Bool)
+    (h : specOp tb pub own (.verify alg msg sig (some c) sk) (.verified ok) = true) :
     (ok = true → verifies c alg msg sig = true) ∧
       (tb.hasSigner alg = true → verifies c alg msg sig = true → ok = true) := by
   simp only [specOp, Bool.and_eq_true, Bool.or_eq_true, Bool.not_eq_true', Bool.and_eq_false_imp] at h
@@ -121,8 +141,8 @@ theorem C20_spec_verified (tb : Tables α) (own c : κ) (alg : α) (msg : μ) (s
 /-- The model's observable satisfies the specification for every thread set, every bystander key
     list and every schedule (hence also for the completed schedules the driver runs). -/
 theorem C20_model_meets_spec (tb : Tables α) (threads : List (Thread κ α μ)) (extra : List κ)
-    (sched : List Nat) :
-    specOk tb threads (observe (certUniverse threads extra) (run tb threads sched).out) = true := by
+    (pub : Option (κ → List κ)) (sched : List Nat) :
+    specOk tb pub threads (observe threads (certUniverse threads extra) pub (run tb threads sched).out) = true := by
   unfold specOk
   rw [List.all_eq_true]
   intro p hmem
@@ -130,7 +150,7 @@ theorem C20_model_meets_spec (tb : Tables α) (threads : List (Thread κ α μ))
   obtain ⟨⟨t, i, e⟩, he, heq⟩ := List.mem_map.mp hmem
   subst heq
   obtain ⟨th, hth, hev⟩ := (inv_run tb threads sched).events t i e he
-  simp only [specEntry, hth]
+  simp only [specEntry, hth, ownAt, Option.map_some]
   cases e with
   | signed alg msg s =>
     obtain ⟨hop, hs⟩ := hev
@@ -138,7 +158,13 @@ theorem C20_model_meets_spec (tb : Tables α) (threads : List (Thread κ α μ))
     subst hs
     rw [verifiers_exact]
     simp only [specOp, Bool.and_eq_true, List.contains_iff_mem, List.all_eq_true, decide_eq_true_eq]
-    constructor
+    refine ⟨⟨?_, ?_⟩, ?_⟩
+    rotate_left 2
+    · cases pub with
+      | none => rfl
+      | some f =>
+        simp only [beq_iff_eq]
+        exact any_verifies_exact _ _ _ _
     · simp only [List.mem_filter, decide_eq_true_eq, and_true]
       unfold certUniverse
       apply List.mem_append_left
@@ -249,16 +275,31 @@ example : raceThreads[0]? = some ⟨10, [.sign 1 100]⟩ ∧ raceThreads[1]? = s
     the shared design's observable on the race schedule, a signature nobody can verify, a signature a
     second key verifies, a foreign certificate accepting, the own certificate refusing, and a signature
     under the key the caller's entity had BEFORE its latest set-up. -/
-example : specOk allAlgs raceThreads (observe (certUniverse raceThreads [30]) (run allAlgs raceThreads [0, 1, 0, 1]).out) = true := by decide
-example : specOk allAlgs raceThreads (observe (certUniverse raceThreads [30]) (runSh allAlgs raceThreads [0, 1, 0, 1]).out) = false := by decide
-example : specOk allAlgs raceThreads [(0, 0, Obs.signed [])] = false := by decide
-example : specOk allAlgs raceThreads [(0, 0, Obs.signed [10, 30])] = false := by decide
-example : specOk allAlgs [⟨10, [.sign 1 1]⟩, ⟨10, [.sign 9 2]⟩] [(1, 0, Obs.signed [10, 10]), (0, 0, .refused)] = true := by decide
-example : specOk allAlgs setupThreads [(0, 2, Obs.verified true)] = false := by decide
-example : specOk allAlgs [⟨10, [.verify 1 5 ⟨11, 1, 5⟩ (some 11) none]⟩] [(0, 0, Obs.verified false)] = false := by decide
-example : specOk allAlgs setupThreads [(0, 1, Obs.signed [10])] = false := by decide
-example : specOk allAlgs setupThreads (observe (certUniverse setupThreads [])
+example : specOk allAlgs none raceThreads (observe raceThreads (certUniverse raceThreads [30]) none (run allAlgs raceThreads [0, 1, 0, 1]).out) = true := by decide
+example : specOk allAlgs none raceThreads (observe raceThreads (certUniverse raceThreads [30]) none (runSh allAlgs raceThreads [0, 1, 0, 1]).out) = false := by decide
+example : specOk allAlgs none raceThreads [(0, 0, Obs.signed [] none)] = false := by decide
+example : specOk allAlgs none raceThreads [(0, 0, Obs.signed [10, 30] none)] = false := by decide
+example : specOk allAlgs none [⟨10, [.sign 1 1]⟩, ⟨10, [.sign 9 2]⟩] [(1, 0, Obs.signed [10, 10] none), (0, 0, .refused)] = true := by decide
+example : specOk allAlgs none setupThreads [(0, 2, Obs.verified true)] = false := by decide
+example : specOk allAlgs none [⟨10, [.verify 1 5 ⟨11, 1, 5⟩ (some 11) none]⟩] [(0, 0, Obs.verified false)] = false := by decide
+example : specOk allAlgs none setupThreads [(0, 1, Obs.signed [10] none)] = false := by decide
+example : specOk allAlgs none setupThreads (observe setupThreads (certUniverse setupThreads []) none
     (run allAlgs setupThreads [0, 1, 0, 1, 0, 1, 1, 1, 1, 0, 0]).out) = true := by decide
+
+/-- Receiving path: issuer 11 (thread 0 after its set-up) publishes a retired certificate first and its
+    current one last, issuer 12 publishes only a retired one, everybody else publishes nothing.  The
+    model's receiver accepts thread 0's signature and rejects thread 1's first one; the specification
+    rejects a receiver that stops at the first certificate, and one that accepts an unpublished key. -/
+def pubEx : Nat → List Nat := fun k => if k = 11 then [99, 98, 11] else if k = 12 then [97] else []
+
+example : (observe setupThreads (certUniverse setupThreads []) (some pubEx)
+    (run allAlgs setupThreads [0, 1, 0, 1, 0, 1]).out) =
+    [(0, 0, .setupDone), (1, 0, .setupDone), (0, 1, .signed [11, 11] (some true)), (1, 1, .signed [12] (some false))] := by
+  decide
+example : specOk allAlgs (some pubEx) setupThreads (observe setupThreads (certUniverse setupThreads []) (some pubEx)
+    (run allAlgs setupThreads [0, 1, 0, 1, 0, 1, 1, 1, 1, 0, 0]).out) = true := by decide
+example : specOk allAlgs (some pubEx) setupThreads [(0, 1, Obs.signed [11] (some false))] = false := by decide
+example : specOk allAlgs (some pubEx) setupThreads [(1, 1, Obs.signed [12] (some true))] = false := by decide
 
 /-- The completion used by the driver finishes every program. -/
 example : (run someAlgs threeThreads (complete threeThreads [2, 2])).ts.all
